@@ -10,6 +10,12 @@
                     TokenKind::Instr(k) => accepts(k, old(self).toks.all().skip(old(self).toks.pos() + 1)) matches Some(n)
                         && stmt_ok(k, st, old(self).toks.all().skip(old(self).toks.pos() + 1), old(self).line, old(self).src, old(sym)@)
                         && old(self).toks.all().len() == old(self).toks.pos() + n + 1,
-                    TokenKind::Trap(k) => st is Trap,
+                    // a trap alias is its vector and nothing after it; `trap <v>` is the 8-bit vector and nothing after it
+                    TokenKind::Trap(k) => match trap_vector_spec(k) {
+                        Some(v) => st == (AirStmt::Trap { trap_vect: v }) && old(self).toks.all().len() == old(self).toks.pos() + 1,
+                        None => old(self).toks.all().len() == old(self).toks.pos() + 2
+                            && num_ok(old(self).toks.all()[old(self).toks.pos() + 1], Bits::Unsigned(8))
+                            && st == (AirStmt::Trap { trap_vect: low8(num_of(old(self).toks.all()[old(self).toks.pos() + 1])) }),
+                    },
                     _ => false,
                 },
